@@ -66,6 +66,23 @@ CHECKS = {
             'Random patterns of stored and unstored numbers, 8 kinds of request range (inside, to infinity, single, from 1, end/begin beyond the latest, whole; one or two requests), file/memory/no persister; '
             'replays must be complete, ascending, PossDup with OrigSendingTime = original SendingTime and identical bodies; gap fills must carry the first number of their gap and skip nothing stored.',
             'NewSeqNo may extend over numbers without a stored message; numbers above the latest sent need no cover.', '3 C18'),
+    'C19': ('session_sim', 'exploration', 'runtime monitor: independent receive-side model (expected number advances only on an in-sequence message or a SequenceReset) over recorded inbound histories, deliveries and outbound reactions',
+            'Thousands of inbound histories mixing in-sequence, ahead, too-low, PossDup (good/absent/bad OrigSendingTime), wrong-CompID, corrupt messages, header values containing "34=" and inbound gap fills, '
+            'with enforcement on/off, acceptor/initiator, with and without an outstanding resend request; each delivery must be justified by the rule and each required reaction '
+            '(ResendRequest from the expected number, Logout + termination, Reject) must be on the wire.',
+            'Delivery = the router callback ran. One-directional where the statement is; whether a rejected message consumes its number follows the session.', '3 C19'),
+    'C20': ('session_sim', 'exploration', 'closed-loop runtime monitor: an executable reference model of a conformant counterparty answers the real session; bounded-progress verdict at wire idle',
+            'Plans of 3..30 counterparty messages with up to 3 loss windows and up to 2 disconnects (counterparty keeps numbering; reconnect Logon above the expected number), acceptor/initiator, '
+            'file/memory persister; verdict: no sequence-related Logout/Reject/termination, every application id delivered at least once, expected number == counterparty next, state continuous.',
+            'Liveness restated as bounded progress (at most 6x(messages+gaps)+40 exchanges until the wire is idle).', '3 C20'),
+    'C22': ('session_sim', 'exploration', 'runtime monitor on a virtual clock: timeline model of last-sent/last-received instants decides every supervision tick and every inbound test request',
+            'Timelines of up to 80 events with advances placed at H-1ms, H, H+1ms, 1.2H, 1.2H+1ms, floor(1.2H)+1 s for H in {1,2,5,7,10,30,60}; Heartbeat when due, TestRequest not early and not late, '
+            'Logout only after a further period, TestReqID echoed, answering Heartbeat restores continuous. One recorded finding (Logout at the tick after the TestRequest; pinned by the repository\'s own test).',
+            'clock_gettime(CLOCK_REALTIME) interposed in the harness; the second between 1.2H and floor(1.2H)+1 s is free.', '3 C22'),
+    'C23': ('session_sim', 'exploration', 'runtime oracle: direct predicates over all CompID/flag/client-list combinations on a real acceptor and initiator; SessionID ==/!= over all 81 identity pairs (exhaustive)',
+            'Acceptor logon completes iff TargetCompID matches (when enforced) and the sender is listed (when a list exists); reply echoes HeartBtInt; reset flag resets both numbers; initiator accepts only mirrored CompIDs '
+            'when enforcing; != is the negation of ==.',
+            '3-letter CompID alphabet; "mismatch" = the initiator does not reach the established state.', '3 C23'),
     'C26': ('persist_model', 'exploration', 'model-based history checking: every API return of MemoryPersister/FilePersister vs a std::map + control-pair model, under ASan+UBSan',
             'Thousands of random histories (up to 120 operations, small key spaces so that collisions, refusals and empty ranges are frequent, reopen for the file store) '
             'are compared call by call with the model derived from the property text; range retrieval is observed through the retransmission callback.',
